@@ -206,6 +206,20 @@ func c18Case(rt *rapid.T, rec *vt.Rec, viaRPCNode bool) {
 			return &pool.PeerResponse{Peers: offeredNodes}, nil
 		}
 		sp.mu.Unlock()
+		// the node's own RPC may fail for one peer and one kind of call: the other peers, and the other call for
+		// that peer, must still be made
+		nodeFault := ""
+		if !viaRPCNode && rapid.IntRange(0, 3).Draw(rt, "nodeFault") == 0 {
+			nodeFault = rapid.SampledFrom([]string{"RemoveTrustedPeer", "DisconnectPeer"}).Draw(rt, "faultMethod") + ":" + hexID(rapid.IntRange(0, universe-1).Draw(rt, "faultPeer"))
+			fm, fid := strings.SplitN(nodeFault, ":", 2)[0], strings.SplitN(nodeFault, ":", 2)[1]
+			rn.mu.Lock()
+			rn.failOn = func(method, arg string) bool { return method == fm && nodeArgID(arg) == fid }
+			rn.mu.Unlock()
+		} else if !viaRPCNode {
+			rn.mu.Lock()
+			rn.failOn = nil
+			rn.mu.Unlock()
+		}
 		takeNodeCalls()
 		sp.take()
 		// --- run the round
@@ -399,6 +413,7 @@ func nodeArgID(arg string) string {
 func connectArg(uri string, viaRPC bool, kind ethnode.NodeKind) string { return uri }
 
 func TestC18AgentRound(t *testing.T) {
+	defer vt.Watch("TestC18AgentRound", 120*time.Second)()
 	rec := vt.For("C18")
 	rec.Rule("real agent.Agent with a recording node and a scripted pool, 1-4 keep-alive rounds (the first inside Start): generated local peer sets (id-only and enode forms; IPv4, IPv6, DNS, loopback, unspecified, localhost addresses with ports), pool replies (active list as enode URIs under the same host / another host / the same host with another port; invalid list as bare ids or enode URIs, also for peers that are not local), strict peering on/off, target 0-6, light/full node of kind geth/parity, update failure, peer-request failures (no hosts, other RPC error, transport error), offered hosts; oracle (round model): un-trusted set == disconnected set == pool-invalid ids + (strict: local peers not listed active under the same host; ports ignored; loopback/unspecified/localhost on either side is a don't-care); Peer requested iff shortfall>0 with num == shortfall and kind == own kind for light clients else \"\"; ConnectPeer exactly for the offered URIs; a failed keep-alive call touches nothing; non-trivial = a round with a required removal and a shortfall; distinct by config + rounds")
 	rapid.Check(t, func(rt *rapid.T) {
